@@ -107,7 +107,5 @@ func (m *memMon) observe(inputLen int, f func()) memObs {
 	f()
 	p1 := m.read()
 	o.peak = p1.mapped - p0.mapped
-	runtime.GC()
-	debug.FreeOSMemory()
 	return o
 }
